@@ -53,6 +53,9 @@ func (c14Engine) Gen(t *rapid.T, tier string) any {
 	c.Journal = rapid.SampledFrom([]string{"DELETE", "WAL"}).Draw(t, "journal")
 	c.MaxConns = rapid.IntRange(1, 3).Draw(t, "maxconns")
 	c.Seed = uint32(rapid.Uint32().Draw(t, "xxseed"))
+	if rapid.IntRange(0, 2).Draw(t, "ownseed") == 0 {
+		c.Seed = 0 // the repository's own seed creation path
+	}
 	np := rapid.IntRange(0, 3).Draw(t, "npre")
 	for i := 0; i < np; i++ {
 		var b []int
